@@ -51,7 +51,7 @@ UNI = ["é", "中", "م", "ر", "ح", "ب", "ا", "µ", "°", "ß", "‮", "​"
 
 
 def plan(tier, seed):
-    n = 10000 if tier == "quick" else 200000
+    n = 10000 if tier == "quick" else 160000
     shards = 16 if tier == "quick" else 64
     per = n // shards
     return [{"seed": seed * 1000003 + 7919 * i + 13, "n": per, "ticks": 30 if tier == "quick" else 45}
